@@ -123,6 +123,10 @@ structure MergeObs where
 def checkMerge (rx : String → String → Bool) (m : MergeObs) : Option String :=
   let T := m.own.ptype
   if m.held.ptype != T then some "merged Parameter changed its type" else
+  -- `names` is specified exactly when `objects` is (`construct_names_iff_objects`)
+  if T == .selector && (m.own.slots .names).isSome != (m.own.slots .objects).isSome then
+    some "slot names: the declaration sets names although it leaves objects unspecified (or the reverse), so names cannot be inherited with objects"
+  else
   let bad := if computable m.own m.supers then
       (slotsOf T).find? fun s => m.held.cfg s != expected m.own m.supers s
     else none
